@@ -46,8 +46,9 @@ TRUSTED_BASE = [
     "Coq 8.16.1 kernel + vm_compute (no native_compute)",
     "hand-written model coq/model/C13_Model.v tied to synkit/Graph/Matcher/{graph_cluster,batch_cluster}.py and "
     "graph_morphism.graph_isomorphism by the per-run correspondence (clusters, rule_to_cluster, classes and the template list after every call)",
-    "networkx nx.is_isomorphic(node_match, edge_match) decides label-preserving isomorphism (modelled by the verified enumerator lib/Mono.v "
-    "with induced:=true on equal-size graphs; compared on every pair the clustering looks at)",
+    "networkx nx.is_isomorphic(node_match, edge_match) decides label-preserving isomorphism: modelled by the verified enumerator lib/Mono.v "
+    "(induced, equal node counts), for which C13_iso_decides_isomorphism / C13_iso_is_equivalence are proved; the generic theorems take the "
+    "test as a parameter and assume only that it is an equivalence (monitored: classes compared after every call)",
     "random.sample inside synkit.Utils.utils.stratified_random_sample (seed 1): its choices are an INPUT of the model, pre-computed by the "
     "harness from a reference clustering; the theorems hold for every choice",
     "harness encoders harness/props/C13.py (attribute interning, half-unit bond orders, pool indices)",
@@ -57,14 +58,28 @@ ASSUMPTIONS = ["items are networkx Graphs (not GML rule strings: the 'mod' backe
                "starting templates are consistent: isomorphic representatives carry the same class",
                "non-empty data lists (iterative_cluster reads rules[0])"]
 TESTED_NOT_PROVED = []
-LEVEL_TEXT = ("Machine-checked proof (Coq): generic theory of first-representative clustering (coq/lib/C13_Partition.v) -- for every decidable "
-              "equivalence R the classes are exactly the R-classes, independent of the list order, incremental classification puts an item "
-              "into the class of its R-related representative or into the fresh class max+1 -- and refinement proofs that the structure-following "
-              "models of GraphCluster.iterative_cluster / fit (visited set, attribute pre-filter) and BatchCluster.lib_check / cluster / fit "
-              "compute that specification; batched and one-shot runs give the same class numbers. Isomorphism on element, charge and order is "
-              "the verified enumerator's relation. Model and code are compared after every call on every run.")
-LEVEL_NOTE = ("Trusted: Coq kernel + vm_compute; the hand-written model and encoders; networkx is_isomorphic as the decision procedure for "
-              "labelled isomorphism (compared with the verified enumerator per run). The sampler's random choices are model inputs.")
+LEVEL_TEXT = ("Machine-checked proof (Coq, 17 theorems in coq/props/C13.v, all closed under the global context). Generic part, for every list "
+              "of items and every decidable test `iso` that is an equivalence, with an iso-invariant pre-grouping attribute as the code reads "
+              "it: GraphCluster.iterative_cluster / fit (visited set, comparison with the first member only, attribute pre-filter) gives every "
+              "item exactly one class and two items share a class IFF iso (C13_partition; clusters list = rule_to_cluster, a partition of the "
+              "indices: C13_clusters_agree/_partition); the partition and the number of classes do not depend on the list order "
+              "(C13_order_independent); BatchCluster.lib_check puts a new item into the class of its isomorphic representative or into the "
+              "fresh class max+1 (C13_incremental, C13_incremental_run; fit with templates or several batches is that run: "
+              "C13_fit_is_incremental_run); batched fit from no templates writes the class numbers of the one-shot run, and over any "
+              "arrival order the same partition (C13_batch_equals_oneshot, C13_batch_any_order); the template list returned by fit is "
+              "coherent and represents every processed item, so a later lib_check joins exactly the class of the isomorphic earlier items "
+              "or opens a fresh one (C13_fit_templates, C13_fit_then_lib_check). Specific part: the isomorphism test the model evaluates "
+              "(equal node counts + verified enumerator Mono.monos, induced, element/charge/order matchers) decides exactly the existence of "
+              "a label- and bond-preserving bijection and IS an equivalence on well-formed graphs (C13_iso_decides_isomorphism, "
+              "C13_iso_is_equivalence), which yields C13_partition_graphs / C13_batch_any_order_graphs with no premise about the test. "
+              "Model and code are compared after every call on every run.")
+LEVEL_NOTE = ("Trusted: Coq kernel + vm_compute; the hand-written model and encoders; networkx is_isomorphic returns the verdict of the verified "
+              "enumerator (the generic theorems need only that it is an equivalence; monitored: classes compared after every call, oracle uses "
+              "an independent brute-force isomorphism). The sampler's random choices are model inputs (theorems hold for every in-range choice). "
+              "The attribute-invariance premise is part of the property text (C13_noninvariant_attribute_splits shows it is necessary).")
+TECHNIQUE = ("Coq proof: generic first-representative clustering theory + refinement of the structure-following Gallina model of both "
+             "clustering loops to it + isomorphism-is-an-equivalence via the verified enumerator; per-run correspondence over call histories "
+             "by vm_compute; independent brute-force oracle")
 
 ATTR_KEY = "att"
 
